@@ -207,6 +207,10 @@ func (fr *Frame) enterLoop(lp *Loop, b *ssa.BasicBlock) bool {
 			if pv, ok := fr.vals[x].(PtrV); ok {
 				c = pv.Cell
 			}
+		default:
+			if pv, ok := fr.vals[x].(PtrV); ok && len(pv.Path) == 0 {
+				c = pv.Cell
+			}
 		}
 		if c == nil {
 			continue
@@ -610,6 +614,32 @@ func (ex *Exec) verifyTop(fn *ssa.Function, con *Contract) {
 	}
 	pos := ex.P.Pos(fn.Pos())
 	for _, cl := range con.Ensures {
+		if con.SplitReturns && len(fr.rets) > 1 {
+			var parts []*Term
+			for _, r := range fr.rets {
+				pr := &SpecEnv{ex: ex, fr: fr, pkgPath: pkg, vars: map[string]Val{}, mem: r.mem, old: fr.entry}
+				for k, v := range entryEnv.vars {
+					pr.vars[k] = v
+				}
+				var rv Val
+				if n == 1 {
+					rv = r.vals[0]
+				} else {
+					rv = TupleV(append([]Val{}, r.vals...))
+				}
+				bindResults(pr.vars, fn, rv)
+				for _, l := range con.Lets {
+					pr.vars[l.Label] = pr.eval(l.Expr)
+				}
+				t, err := pr.EvalBool(cl.Expr)
+				if err != nil {
+					panic(specErr{fmt.Sprintf("%s: %v", cl.Line, err)})
+				}
+				parts = append(parts, Implies(r.guard, t))
+			}
+			ex.oblige("ensures:"+cl.Label, "ensures", pos, TTrue, And(parts...))
+			continue
+		}
 		t, err := post.EvalBool(cl.Expr)
 		if err != nil {
 			panic(specErr{fmt.Sprintf("%s: %v", cl.Line, err)})
